@@ -1,2 +1,6 @@
 import Ufw.Props.C04
+#print axioms Ufw.Props.C04.orderCheck_go_none
+#print axioms Ufw.Props.C04.orderCheck_go_some
+#print axioms Ufw.Props.C04.init_outcome
 #print axioms Ufw.Props.C04.uninitialised_refuses
+#print axioms Ufw.Props.C04.init_no_areas
